@@ -731,8 +731,10 @@ static void rnd_op(vh_rng_t * rng, op_t * op) {
     memset(op, 0, sizeof *op);
     if (k < 45) {
         op->kind = (uint8_t) (K_SET + vh_below(rng, 3));
-        op->a = (uint8_t) (SCPI_REG_SRE + vh_below(rng, NREG - 1)); /* never the status byte itself */
+        op->a = (uint8_t) (SCPI_REG_SRE + vh_below(rng, NREG - 1)); /* never the summary bits of the status byte itself */
         op->val = rnd_val(rng);
+        /* ... but a device may use the bits of the status byte that no summary owns (0, 1 and whatever the register stores above bit 7) */
+        if (vh_chance(rng, 1, 12)) { op->kind = (uint8_t) (vh_chance(rng, 1, 2) ? K_SETBITS : K_CLRBITS); op->a = SCPI_REG_STB; op->val &= 0xFF03; if (!op->val) op->val = 0x0200; }
     } else if (k < 57) { op->kind = K_PUSH; op->code = rnd_code(rng); }
     else if (k < 63) op->kind = K_POP;
     else if (k < 65) op->kind = K_CLEAR;
